@@ -14,8 +14,12 @@ depth function against `groove.local_depth` on 50 abscissae (junctions +- 1 ulp)
 interpolation against the real roll (whichever way its radius was given; `min_radius` / `max_radius` through the translated
 hooks), the spline model (face test on ordinates around its tolerance, stripping, centring, width, usable width, depth, interp1; whether the groove's array shares
 memory with the caller's and whether the constructor wrote into it) against real `SplineGroove`s built from lists, tuples,
-float64 arrays and views, the closed formulas against the python functions on stubs.
-The independent oracle checks the property text on the real objects (see `_oracle_*`).
+float64 arrays and views, the closed formulas against the python functions on stubs; (e) what a `Roll` keeps on the object
+between two calls (`RollTables` of PyrollModel/RollObject.lean: private attributes of `__init__`, what `reevaluate_cache`
+empties and when, pure / remembering methods, hook functions reading them; nothing at module level) - the model's run of a
+life of the object (changes + `reevaluate_cache()`, calls) is compared with a real `Roll` step by step.
+The independent oracle checks the property text on the real objects (see `_oracle_*`) - on new rolls and on USED ones: after
+every change in the life of one roll object (`_roll_life`) and on the roll of a pass that is solved again (`_pass_roll_case`).
 """
 import math
 import warnings
@@ -36,16 +40,24 @@ RULE = ("(a) grooves of every parametric class (20 classes, feasible catalogue p
         "groove size, given as nominal_radius / nominal_diameter / explicit max_radius below or above the nominal radius / "
         "max_radius alone, contact length "
         "log-uniform 1e-3..0.9 of the minimal radius or absent, ROLL_SURFACE_DISCRETIZATION_COUNT 2..24 or the default; query "
-        "points inside the grid: nodes, nodes +- 1 ulp, uniform; (c) spline polylines: symmetric and asymmetric, with and "
+        "points inside the grid: nodes, nodes +- 1 ulp, uniform; (b2) 70 % of these roll OBJECTS go on living: 1..4 operations "
+        "(new contact length - the grid keeps extent and size, its inner nodes move -, contact length taken away, all radii "
+        "rescaled, another discretisation count, a surface_x grid given by the user / taken back, another roll on the same groove "
+        "looked at in between, a plain second query), each followed by reevaluate_cache() and a full look at the same object; "
+        "(b3) rolls inside roll passes (6 groove classes, radius / gap / groove jittered, ROLL_SURFACE_DISCRETIZATION_COUNT 2..24 or "
+        "default): looked at before the first solution (40 %), after the first, second and third solution with different incoming "
+        "profiles (round / square / box / diamond, 1.05..2 x as high as the pass); (c) spline polylines: symmetric and asymmetric, with and "
         "without horizontal face runs, with and without contacts with the face line in between, 3..12 interior vertices, lengths log-uniform, refined by 1..30 collinear insertions "
         "(all segments / left flank only / one segment only / face runs, parameter uniform or clustered at a vertex), handed over "
         "as list / tuple / float64 ndarray / non-contiguous float64 view; in half of the cases the caller goes on using its "
         "container (1..5 operations: rescale ordinates or everything, shift, mirror the ordinates, build the next family member "
         "from it, zero it) and every groove built so far is looked at again afterwards; (d) correspondence only: polylines "
         "with end ordinates / ordinates next to the face runs 0.25 .. 40 x the tolerance a face test may have (1e-8 absolute, "
-        "1e-9 x extent), contours of 1e-3 .. 3000 length units: the translated face test accepts / strips like the constructor. "
+        "1e-9 x extent), contours of 1e-3 .. 3000 length units: the translated face test accepts / strips like the constructor; "
+        "lives of one real roll (3..8 steps: change of contact length / radius, another groove, each + reevaluate_cache(); calls of "
+        "contour_line / surface_interpolation / min_radius) against the model's run of the generated roll_tables. "
         "non-trivial = pad angle != 0, a changed sample count, a contact length, a radius not given as nominal_radius, a "
-        "refinement, or a reuse sequence; distinct by rounded inputs.")
+        "refinement, a reuse sequence, a roll life, a roll inside a pass; distinct by rounded inputs.")
 ASSUMPTIONS = [
     "scipy.interpolate.interp1d (linear, extrapolating) and interpn (linear) are modelled as (bi)linear interpolation "
     "(tensor product of two 1-D interpolations); the model is compared with scipy on every generated roll / spline (rtol 1e-9)",
@@ -60,6 +72,11 @@ ASSUMPTIONS = [
     "ndarray through, basic slicing = view, mask indexing / .copy() = fresh array, augmented assignment writes in place); that "
     "interp1d, LineString and Polygon copy their input is trusted (the oracle looks at these representations after the caller "
     "reused its array)",
+    "what a Roll keeps between two calls is modelled at the level of attribute names and of WHICH data a kept value was "
+    "computed from (PyrollModel/RollObject.lean); that HookHost.reevaluate_cache re-evaluates every cached hook value and that "
+    "a hook value set explicitly wins over a cached one is the hook mechanism's business (C01/C02); a change of a value is "
+    "taken to be followed by reevaluate_cache() (the solver does that in every iteration); replacing roll.groove is in the "
+    "correspondence only (see notes: after ONE reevaluate_cache() min_radius still belongs to the old groove)",
 ]
 
 RTOL = 1e-8          # see ASSUMPTIONS: rounding only, relative to the size of the object
@@ -381,33 +398,53 @@ def _read(what, fn):
         raise
 
 
-def _oracle_roll(ctx, desc, rdesc, g, roll, queries, symmetric_z=True):
+def _oracle_roll(ctx, desc, rdesc, g, roll, queries, symmetric_z=True, rp=None, stage="", second_evaluation=True):
+    """`stage` names the point in the life of the roll object at which it is looked at (after its contact length was changed,
+    after the pass it belongs to was solved a second time, ...); it is appended to every key (nothing for the first look at a
+    new roll).  `rdesc` describes the data the roll has NOW, `rp` how to get there (replay)."""
     import numpy as np
-    rp = {"groove": desc, "roll": rdesc}
+    rp = rp if rp is not None else {"groove": desc, "roll": rdesc}
+    at = f" [{stage[1:]}]" if stage else ""
     cp0 = np.array(g.contour_points, dtype=float, copy=True)      # the groove BEFORE anything is read on the roll
     try:
-        grid = _oracle_roll_(ctx, desc, rdesc, g, roll, queries, symmetric_z)
+        grid = _oracle_roll_(ctx, desc, rdesc, g, roll, queries, symmetric_z, rp, stage, second_evaluation)
     except _InterpolationRaised as ex:
-        ctx.violation("surface-interpolation-raises-inside-grid",
-                      f"surface_interpolation raised for a point inside the grid: {ex}", rp)
+        ctx.violation("surface-interpolation-raises-inside-grid" + stage,
+                      f"surface_interpolation raised for a point inside the grid{at}: {ex}", rp)
         grid = None
     except _SurfaceRaised as ex:
         # the roll is geometrically possible (max_radius above the deepest point of the groove, contact length below the
         # minimal radius): every representation of its surface exists
-        ctx.violation("roll-surface-raises:" + rdesc.get("radius_mode", "nominal_radius"),
-                      f"a representation of the roll surface cannot be read: {ex}", rp)
+        ctx.violation("roll-surface-raises:" + rdesc.get("radius_mode", "nominal_radius") + stage,
+                      f"a representation of the roll surface cannot be read{at}: {ex}", rp)
         grid = None
     # reading the roll's representations leaves the groove's own contour alone (they describe the SAME shape afterwards too)
     cp1 = np.asarray(g.contour_points, dtype=float)
     if cp1.shape != cp0.shape or not np.array_equal(cp1, cp0):
-        ctx.violation("groove-contour-changed-by-roll-reads",
-                      "the groove's contour_points differ after the roll's contour / surface grid / interpolation were read", rp)
+        ctx.violation("groove-contour-changed-by-roll-reads" + stage,
+                      "the groove's contour_points differ after the roll's contour / surface grid / interpolation were read" + at,
+                      rp)
     return grid
 
 
-def _oracle_roll_(ctx, desc, rdesc, g, roll, queries, symmetric_z=True):
+class _Staged:
+    """ctx.violation with the stage of the roll's life appended to key and text"""
+
+    def __init__(self, ctx, stage):
+        self.ctx, self.stage = ctx, stage
+        self.rng = ctx.rng
+
+    def violation(self, key, what, obj):
+        self.ctx.violation(key + self.stage, what + (f" [{self.stage[1:]}]" if self.stage else ""), obj)
+
+    def count(self, key):
+        self.ctx.count(key)
+
+
+def _oracle_roll_(ctx, desc, rdesc, g, roll, queries, symmetric_z=True, rp=None, stage="", second_evaluation=True):
     import numpy as np
-    rp = {"groove": desc, "roll": rdesc}
+    rp = rp if rp is not None else {"groove": desc, "roll": rdesc}
+    ctx = _Staged(ctx, stage)
     rk = rdesc.get("radius_mode", "nominal_radius")
     cp = np.asarray(g.contour_points, dtype=float)
     rcp = np.asarray(_read("contour_points", lambda: roll.contour_points), dtype=float)
@@ -481,9 +518,39 @@ def _oracle_roll_(ctx, desc, rdesc, g, roll, queries, symmetric_z=True):
                           f"surface_interpolation at node (x index {j}, vertex {k}) gives {v!r}, grid value {Y[k, j]!r}",
                           dict(rp, xi=j, vertex=k))
             break
-    # symmetric in rolling and width direction; at the high point it is the contour polyline
+    # ... at ALL nodes at once, through the array form of the call (one row per contour vertex, as surface_y; the transposed
+    # layout the docstring names is accepted as well)
+    try:
+        A = np.asarray(roll.surface_interpolation(xs, zs), dtype=float)
+    except Exception as ex:
+        import traceback
+        if any("/pyroll/" in f.filename for f in traceback.extract_tb(ex.__traceback__)):
+            raise _InterpolationRaised(f"(all nodes at once) {type(ex).__name__}: {ex}") from ex
+        raise
+    if A.shape != Y.shape and A.shape == Y.T.shape:
+        A = A.T
+    if A.shape == Y.shape:
+        bad = ~(np.abs(A - Y) <= tol * 1e-2)
+        if bad.any():
+            k, j = (int(v) for v in np.argwhere(bad)[0])
+            ctx.violation("interpolation-not-exact-at-node",
+                          f"surface_interpolation(surface_x, surface_z) differs from surface_y at {int(bad.sum())} of {bad.size} "
+                          f"nodes, first at (x index {j}, vertex {k}): {A[k, j]!r} instead of {Y[k, j]!r}",
+                          dict(rp, xi=j, vertex=k))
+    else:
+        ctx.count("interpolation-array-form-shape-not-judged")
+    # symmetric in rolling and width direction; at the high point it is the contour polyline; between the nodes a linear
+    # interpolation stays between the values of the nodes around the point
     for (x, z) in queries:
         v = _si(roll, x, z)
+        j1 = min(max(int(np.searchsorted(xs, x, side="left")), 1), len(xs) - 1)
+        k1 = min(max(int(np.searchsorted(zs, z, side="left")), 1), len(zs) - 1)
+        cell = Y[k1 - 1:k1 + 1, j1 - 1:j1 + 1]
+        if not (float(cell.min()) - tol <= v <= float(cell.max()) + tol):
+            ctx.violation("interpolation-outside-cell",
+                          f"surface_interpolation({x!r}, {z!r}) = {v!r}; the four grid nodes around that point have the values "
+                          f"{cell.ravel().tolist()!r}", dict(rp, x=x, z=z))
+            break
         vx = _si(roll, -x, z)
         if not abs(v - vx) <= tol:
             ctx.violation("interpolation-not-symmetric-x", f"surface_interpolation({x!r}, {z!r}) = {v!r} but at -x: {vx!r}",
@@ -501,14 +568,168 @@ def _oracle_roll_(ctx, desc, rdesc, g, roll, queries, symmetric_z=True):
                 ctx.violation("interpolated-high-point-differs",
                               f"surface_interpolation(0, {z!r}) = {v!r}, the contour polyline is at {ref!r}", dict(rp, z=z))
                 break
+    if not second_evaluation:
+        return xs, zs, Y
     # a second evaluation on the used roll gives the same surface (nothing is kept from the first one but the cache)
-    roll.reevaluate_cache()
+    _read("reevaluate_cache", roll.reevaluate_cache)
     xs2 = np.asarray(_read("surface_x (second evaluation)", lambda: roll.surface_x), dtype=float)
     Y2 = np.asarray(_read("surface_y (second evaluation)", lambda: roll.surface_y), dtype=float)
     if xs2.shape != xs.shape or Y2.shape != Y.shape or not (np.array_equal(xs2, xs) and np.array_equal(Y2, Y)):
         ctx.violation("roll-surface-changes-on-reevaluation",
                       "surface_x / surface_y differ between the first evaluation and the one after reevaluate_cache()", rp)
     return xs, zs, Y
+
+
+# ------------------------------------------------------------------------------------------------------------------
+# the life of ONE roll object: it is used, its data change, it is used again
+# ------------------------------------------------------------------------------------------------------------------
+ROLL_OPS = ["contact-length", "contact-length", "contact-length", "contact-length-unset", "radius", "discretization",
+            "explicit-surface-x", "surface-x-unset", "other-roll", "second-query"]
+# (keys stay below the 60 characters the replay file name keeps, and differ early)
+STAGE = {"contact-length": ":new-contact-length", "contact-length-unset": ":no-contact-length", "radius": ":new-radius",
+         "discretization": ":new-discretization", "explicit-surface-x": ":explicit-surface-x",
+         "surface-x-unset": ":surface-x-unset", "other-roll": ":after-other-roll", "second-query": ":second-query"}
+# past failures first: a contact length changed twice on the roll of a constricted box groove (the extent of the grid stays,
+# its inner nodes move), a roll that loses its contact length, one whose discretisation and radius change
+CORPUS_ROLL_LIVES = [
+    {"groove": {"cls": "ConstrictedBoxGroove", "kwargs": dict(r1=5, r2=10, r4=5, usable_width=100, flank_angle=85, depth=20,
+                                                              indent=5, pad_angle=0), "pad_mode": "0"},
+     "roll": {"nominal_radius": 200.0, "contact_length": 50.0, "mode": "set", "nx": None, "radius_mode": "nominal_radius",
+              "ops": [["contact-length", 20.0], ["second-query"], ["contact-length", 90.0]]}},
+    {"groove": {"cls": "RoundGroove", "kwargs": dict(r1=2, r2=10, depth=10, pad_angle=0), "pad_mode": "0"},
+     "roll": {"nominal_diameter": 200.0, "contact_length": 50.0, "mode": "set", "nx": 7, "radius_mode": "nominal_diameter",
+              "ops": [["contact-length-unset"], ["contact-length", 3.0], ["other-roll", 40.0], ["discretization", 12],
+                      ["radius", 1.25, None], ["explicit-surface-x", [5.0, 21.5, 60.0]], ["contact-length", 11.0],
+                      ["surface-x-unset"]]}},
+]
+
+
+def _current_radius(cur):
+    """the radius at the highest point of the groove, from the data the roll was given"""
+    if cur.get("max_radius") is not None:
+        return float(cur["max_radius"])
+    if cur.get("nominal_radius") is not None:
+        return float(cur["nominal_radius"])
+    return float(cur["nominal_diameter"]) / 2
+
+
+def _reevaluate(roll, nx):
+    """`reevaluate_cache()` - how a changed value is made visible (the solver does it in every iteration, a user after setting
+    a value); the hook values are re-evaluated right there, so the discretisation count must already be the roll's"""
+    with _ConfigOverride(ROLL_SURFACE_DISCRETIZATION_COUNT=nx):
+        _read("reevaluate_cache", roll.reevaluate_cache)
+
+
+def _roll_life(ctx, desc, rdesc, g, roll, batch, with_model, symmetric_z=True, extra_queries=None):
+    """Everything `_oracle_roll` demands of a new roll is demanded again of the SAME object after each change of its data:
+    a new contact length (the grid keeps its extent and size, its inner nodes move), no contact length any more, other radii,
+    another discretisation count, a surface_x grid given by the user, the same after the value is taken back, after another
+    roll on the same groove was looked at, and simply when asked a second time.  `rdesc["ops"]` (replay, corpus) fixes the
+    operations; otherwise 1..4 are drawn and written there."""
+    import numpy as np
+    from pyroll.core import Roll
+    rng = ctx.rng
+    cp = np.asarray(g.contour_points, dtype=float)
+    ymax = float(cp[:, 1].max())
+    given = rdesc.get("ops")
+    n_ops = len(given) if given is not None else rng.randrange(1, 5)
+    ops = []
+    rdesc["ops"] = ops
+    rp = {"groove": desc, "roll": rdesc}
+    cur = {k: v for k, v in rdesc.items() if k != "ops"}
+    cur["explicit_x"] = False
+    for i in range(n_ops):
+        R = _current_radius(cur)
+        rmin = R - ymax
+        kind = given[i][0] if given is not None else rng.choice(ROLL_OPS)
+        if given is None:
+            if kind == "contact-length-unset" and cur["mode"] != "set":
+                kind = "contact-length"
+            if kind == "surface-x-unset" and not cur["explicit_x"]:
+                kind = "second-query"
+            if kind == "explicit-surface-x" and cur["explicit_x"]:
+                kind = "contact-length"
+        # ---- the concrete operation
+        if kind == "contact-length":
+            op = [kind, float(given[i][1]) if given is not None else rmin * 10 ** rng.uniform(-3, math.log10(0.9))]
+            roll.contact_length = op[1]
+            cur.update(contact_length=op[1], mode="set")
+        elif kind == "contact-length-unset":
+            op = [kind]
+            roll.__dict__.pop("contact_length", None)
+            cur.update(contact_length=None, mode="default")
+        elif kind == "radius":
+            if given is not None:
+                f, cl = float(given[i][1]), given[i][2]
+            else:
+                f = rng.choice([rng.uniform(0.7, 0.98), rng.uniform(1.02, 1.5)])
+                cl = None
+                if cur["mode"] == "set" and cur["contact_length"] > 0.9 * (f * R - ymax):
+                    cl = 0.9 * (f * R - ymax) * rng.uniform(0.2, 1.0)      # stays a roll that can exist
+            op = [kind, f, cl]
+            for k in RADIUS_KEYS:
+                if cur.get(k) is not None:
+                    cur[k] = cur[k] * f
+                    setattr(roll, k, cur[k])
+            if cl is not None:
+                roll.contact_length = float(cl)
+                cur["contact_length"] = float(cl)
+            if cur["explicit_x"]:
+                # the user's grid belongs to the old roll body: it is rescaled with the radius at the groove bottom
+                roll.surface_x = np.asarray(roll.__dict__["surface_x"], dtype=float) * ((f * R - ymax) / rmin)
+        elif kind == "discretization":
+            op = [kind, int(given[i][1]) if given is not None else rng.choice([n for n in range(2, 25) if n != cur["nx"]])]
+            cur["nx"] = op[1]
+        elif kind == "explicit-surface-x":
+            # a grid of the user's: symmetric, ascending, through the high point, inside the groove bottom circle
+            pos = [float(v) for v in given[i][1]] if given is not None else \
+                sorted(rmin * rng.uniform(0.01, 0.98) for _ in range(rng.randrange(1, 9)))
+            pos = [v for k, v in enumerate(pos) if 0 < v < rmin and (k == 0 or v > pos[k - 1])]
+            op = [kind, pos]
+            roll.surface_x = np.array([-v for v in reversed(pos)] + [0.0] + pos)
+            cur["explicit_x"] = True
+        elif kind == "surface-x-unset":
+            op = [kind]
+            roll.__dict__.pop("surface_x", None)
+            cur["explicit_x"] = False
+        elif kind == "other-roll":
+            op = [kind, float(given[i][1]) if given is not None else rmin * 10 ** rng.uniform(-3, math.log10(0.9))]
+        elif kind == "second-query":
+            op = [kind]
+        else:
+            raise ValueError(f"unknown roll operation {kind!r}")
+        ops.append(op)
+        ctx.count("roll-op:" + kind)
+        stage = STAGE[kind]
+        rp_i = dict(rp, step=i + 1)
+        now = dict(cur)
+        if kind == "other-roll":
+            # another roll object on the same groove with the same radii, another contact length: each of the two describes its
+            # own surface, whichever was asked last
+            other = Roll(groove=g, **dict({k: cur[k] for k in RADIUS_KEYS if cur.get(k) is not None}, contact_length=op[1]))
+            with _ConfigOverride(ROLL_SURFACE_DISCRETIZATION_COUNT=cur["nx"]):
+                oxs = np.asarray(_read_or_none(lambda: other.surface_x), dtype=float)
+                oq = _grid_queries(rng, oxs, cp[:, 0], 6) if oxs.ndim == 1 and len(oxs) else []
+                _oracle_roll(ctx, desc, dict(now, contact_length=op[1], mode="set"), g, other, oq, symmetric_z, rp=rp_i,
+                             stage=":other-roll")
+        try:
+            if kind not in ("other-roll", "second-query"):
+                _reevaluate(roll, cur["nx"])
+        except _SurfaceRaised as ex:
+            ctx.violation("roll-surface-raises:" + cur["radius_mode"] + stage,
+                          f"reevaluate_cache() of a roll that can exist raised: {ex} [{stage[1:]}]", rp_i)
+            return
+        with _ConfigOverride(ROLL_SURFACE_DISCRETIZATION_COUNT=cur["nx"]):
+            xs = np.asarray(_read_or_none(lambda: roll.surface_x), dtype=float)
+            ok = xs.ndim == 1 and len(xs) > 0
+            queries = _grid_queries(rng, xs, cp[:, 0], 10) if ok else []
+            queries += _inside(extra_queries, xs, cp)
+            grid = _oracle_roll(ctx, desc, now, g, roll, queries, symmetric_z, rp=rp_i, stage=stage)
+        if with_model and grid is not None and cur["nx"] is not None:
+            _batch_roll(batch, desc, now, g, roll, grid, queries, rng, rp=rp_i, explicit_x=cur["explicit_x"])
+    ctx.case(["roll-life", desc.get("cls"), [rdesc.get(k) for k in RADIUS_KEYS], rdesc.get("contact_length"), rdesc.get("nx"),
+              [[o[0]] + [round(v, 9) if isinstance(v, float) else v for v in o[1:] if not isinstance(v, (list, dict))]
+               for o in ops]], nontrivial=True)
 
 
 # ------------------------------------------------------------------------------------------------------------------
@@ -808,7 +1029,9 @@ def _batch_groove(batch, desc, g, qs, info):
               dict(what="local_depth", real=[float(v) for v in d], args=qs, tol=1e-8 * L, replay={"groove": desc}))
 
 
-def _batch_roll(batch, desc, rdesc, g, roll, grid, queries, rng):
+def _batch_roll(batch, desc, rdesc, g, roll, grid, queries, rng, rp=None, explicit_x=False):
+    """`rdesc` = the data the roll has now; `explicit_x`: the grid abscissae are the user's (or those of a roll inside a pass,
+    whose contact length is the solver's): they are handed to the model as they are instead of being compared"""
     import numpy as np
     xs, zs, Y = grid
     cp = np.asarray(g.contour_points, dtype=float)
@@ -816,7 +1039,7 @@ def _batch_roll(batch, desc, rdesc, g, roll, grid, queries, rng):
     env = {"max_radius": R, "min_radius": float(roll.min_radius)}
     if rdesc["mode"] == "set":
         env["contact_length"] = float(roll.contact_length)
-    rp = {"groove": desc, "roll": rdesc}
+    rp = rp if rp is not None else {"groove": desc, "roll": rdesc}
     # the translated hooks the radii of the surface come from, on this very roll: min_radius from max_radius and the deepest
     # contour ordinate; max_radius from the nominal radius when it is not given explicitly
     ymax = float(roll.contour_line.bounds[3])
@@ -826,9 +1049,12 @@ def _batch_roll(batch, desc, rdesc, g, roll, grid, queries, rng):
         batch.add(f"roll_max_radius nominal_radius={bits(float(roll.nominal_radius))}", "scalar",
                   dict(what="max_radius of the roll (not given explicitly)", real=R, tol=0.0, replay=rp))
     batch.add(_env_line(env))
-    n = (len(xs) + 1) // 4
-    batch.add(f"surfx {n} {rdesc['mode']}", "list", dict(what="surface_x", real=[float(v) for v in xs], args=None,
-                                                         tol=1e-9 * R, replay=rp))
+    if explicit_x:
+        batch.add("xs " + " ".join(str(bits(float(v))) for v in xs))
+    else:
+        n = (len(xs) + 1) // 4
+        batch.add(f"surfx {n} {rdesc['mode']}", "list", dict(what="surface_x", real=[float(v) for v in xs], args=None,
+                                                             tol=1e-9 * R, replay=rp))
     batch.add("pts " + " ".join(f"{bits(a)} {bits(b)}" for a, b in cp))
     batch.add("grid")
     for _ in range(6):
@@ -897,6 +1123,93 @@ def _face_test_cases(ctx, batch, n):
         batch.add(line, "splineface", dict(real=g, ends_rejected=ends_rejected, tol=1e-9 * (w + d), replay={"spline": sdesc}))
 
 
+# ------------------------------------------------------------------------------------------------------------------
+# (K) what a roll object remembers: the generated `roll_tables` run by PyrollModel/RollObject.lean against a real Roll
+# ------------------------------------------------------------------------------------------------------------------
+def _private_now(obj):
+    """the non-empty private instance attributes (the hook cache `__cache__` is not one of them)"""
+    return sorted(k for k, v in vars(obj).items() if k.startswith("_") and not (k.startswith("__") and k.endswith("__"))
+                  and v is not None)
+
+
+def _answers_like_new(roll, fresh, what):
+    """does the used roll answer `what` like a new roll with the same data (K only: a flag to compare with the model's)"""
+    import numpy as np
+    R = float(fresh.max_radius)
+    try:
+        with warnings.catch_warnings(), np.errstate(all="ignore"):
+            warnings.simplefilter("ignore")
+            if what == "min_radius":
+                return abs(float(roll.min_radius) - float(fresh.min_radius)) <= 1e-12 * R
+            if what == "contour_line":
+                a, b = np.asarray(roll.contour_line.coords, dtype=float), np.asarray(fresh.contour_points, dtype=float)
+                return a.shape == b.shape and bool(np.array_equal(a, b))
+            xf, zf, Yf = (np.asarray(v, dtype=float) for v in (fresh.surface_x, fresh.surface_z, fresh.surface_y))
+            cols = [len(xf) - 1, 0, len(xf) // 2, len(xf) // 3]
+            got = np.asarray(roll.surface_interpolation(xf[cols], zf), dtype=float)
+            return got.shape == Yf[:, cols].shape and bool(np.all(np.abs(got - Yf[:, cols]) <= 1e-9 * R))
+    except Exception as ex:
+        if not _in_pyroll(ex):
+            raise
+        return False
+
+
+def _batch_rollobj(ctx, batch, n, info):
+    """Lives of ONE real roll (changes of contact length / radius = `rest`, another groove = `shape`, each followed by
+    `reevaluate_cache()`; calls of `contour_line`, `surface_interpolation`, `min_radius`) against the model's run of the
+    generated tables: after every step the same private attributes are non-empty, and every call is answered like a new roll
+    with the same data exactly when the model says so - which it does not after a change of the groove (see notes: the order of
+    the statements of `Roll.reevaluate_cache`).  Also: a new roll has exactly the private attributes the translator found."""
+    import numpy as np
+    from pyroll.core import Roll, RoundGroove, CircularOvalGroove
+    rs = info.get("roll_state")
+    if rs is None:
+        return
+    rng = ctx.rng
+    calls = [m for m, _ in rs["methods"]] + [h for h, _ in rs["hook_reads"]]
+    known = {"contour_line", "surface_interpolation", "min_radius"}
+    if not calls or not set(calls) <= known:
+        ctx.tie_breaks.append(f"correspondence: no way to call {sorted(set(calls) - known)} on a real roll")
+        calls = [c for c in calls if c in known]
+    grooves = [lambda: RoundGroove(r1=2, r2=10, depth=8), lambda: RoundGroove(r1=2, r2=12, depth=11),
+               lambda: CircularOvalGroove(depth=5.05, r1=7, r2=33), lambda: RoundGroove(r1=1, r2=9, depth=6.5)]
+    for _ in range(n):
+        gi = rng.randrange(len(grooves))
+        data = dict(nominal_radius=100.0 * rng.uniform(0.8, 2), contact_length=rng.uniform(2, 40))
+        roll = Roll(groove=grooves[gi](), **data)
+        if _private_now(roll) or sorted(k for k in vars(roll) if k.startswith("_") and not k.endswith("__")) != sorted(rs["private"]):
+            ctx.disagreement(f"private attributes of a new Roll: {sorted(k for k in vars(roll) if k.startswith('_'))!r}, the "
+                             f"translator read {rs['private']!r} from __init__", {"roll": data})
+            continue
+        ops, real = [], []
+        for _ in range(rng.randrange(3, 9)):
+            k = rng.choice(["rest", "rest", "shape", "call", "call", "call"]) if calls else rng.choice(["rest", "shape"])
+            if k == "rest":
+                if rng.random() < 0.6:
+                    data["contact_length"] = rng.uniform(2, 40)
+                    roll.contact_length = data["contact_length"]
+                else:
+                    data["nominal_radius"] = data["nominal_radius"] * rng.choice([0.9, 1.15])
+                    roll.nominal_radius = data["nominal_radius"]
+            elif k == "shape":
+                gi = rng.choice([j for j in range(len(grooves)) if j != gi])
+                roll.groove = grooves[gi]()
+            if k in ("rest", "shape"):
+                with warnings.catch_warnings(), np.errstate(all="ignore"):
+                    warnings.simplefilter("ignore")
+                    roll.reevaluate_cache()
+                ops.append(k)
+                real.append("c:" + (",".join(_private_now(roll)) or "-"))
+            else:
+                what = rng.choice(calls)
+                fresh = Roll(groove=grooves[gi](), **data)
+                flag = _answers_like_new(roll, fresh, what)
+                ops.append("call:" + what)
+                real.append(("1:" if flag else "0:") + (",".join(_private_now(roll)) or "-"))
+        ctx.count("roll-object-life:" + ("with-groove-change" if "shape" in ops else "data-changes-only"))
+        batch.add("rollobj " + " ".join(ops), "rollobj", dict(real=real, replay={"roll_object_life": ops, "roll": dict(data)}))
+
+
 def _run_batch(ctx, batch):
     import numpy as np
     if not batch.lines:
@@ -942,6 +1255,16 @@ def _run_batch(ctx, batch):
                     k = int(np.argmax(np.abs(m - p["real"]).max(axis=1)))
                     ctx.disagreement(f"{p['what']} vertex {k}: model {m[k].tolist()!r}, implementation {p['real'][k].tolist()!r}",
                                      dict(p["replay"], vertex=k))
+                else:
+                    ctx.validated()
+            elif kind == "rollobj":
+                m = [",".join(sorted(t[2:].split(","))) for t in o.split()]
+                m = [a[:2] + b for a, b in zip(o.split(), m)]
+                if m != p["real"]:
+                    k = next((i for i, (a, b) in enumerate(zip(m, p["real"])) if a != b), min(len(m), len(p["real"])))
+                    ctx.disagreement("life of a roll object (c = change + reevaluate_cache, 1/0 = call answered like a new roll / "
+                                     f"from stale data; then the non-empty private attributes): model {m!r}, implementation "
+                                     f"{p['real']!r} (first difference at step {k})", p["replay"])
                 else:
                     ctx.validated()
             elif kind == "own":
@@ -1092,7 +1415,7 @@ def _groove_case(ctx, desc, batch, with_model, roll_budget, rolls=None, roll_que
         with _ConfigOverride(ROLL_SURFACE_DISCRETIZATION_COUNT=rdesc["nx"]):
             xs = np.asarray(_read_or_none(lambda: roll.surface_x), dtype=float)
             queries = _grid_queries(ctx.rng, xs, cp[:, 0], 14) if xs.ndim == 1 and len(xs) else []
-            queries += [(float(x), float(z)) for (x, z) in (roll_queries or [])]
+            queries += _inside(roll_queries, xs, cp)
             grid = _oracle_roll(ctx, desc, rdesc, g, roll, queries)
         ctx.case(["roll", desc["cls"], [rdesc.get(k) for k in RADIUS_KEYS], rdesc.get("contact_length"), rdesc["nx"]],
                  nontrivial=rdesc["mode"] == "set" or rdesc["nx"] is not None or rdesc["radius_mode"] != "nominal_radius")
@@ -1100,6 +1423,9 @@ def _groove_case(ctx, desc, batch, with_model, roll_budget, rolls=None, roll_que
         ctx.count("roll-radius:" + rdesc["radius_mode"])
         if with_model and grid is not None and info is not None and rdesc["nx"] is not None:
             _batch_roll(batch, desc, rdesc, g, roll, grid, queries, ctx.rng)
+        # the same roll object goes on living
+        if grid is not None and (rdesc.get("ops") is not None or ctx.rng.random() < 0.7):
+            _roll_life(ctx, desc, rdesc, g, roll, batch, with_model and info is not None, extra_queries=roll_queries)
 
 
 def _spline_case(ctx, sdesc, batch, with_model):
@@ -1162,11 +1488,13 @@ def _spline_case(ctx, sdesc, batch, with_model):
             with _ConfigOverride(ROLL_SURFACE_DISCRETIZATION_COUNT=rdesc["nx"]):
                 xs = np.asarray(_read_or_none(lambda: roll.surface_x), dtype=float)
                 q = _grid_queries(ctx.rng, xs, cp[:, 0], 8) if xs.ndim == 1 and len(xs) else []
-                for extra in sdesc.get("roll_queries") or []:
-                    q.append((float(extra[0]), float(extra[1])))
-                _oracle_roll(ctx, {"cls": "SplineGroove", "kwargs": {}, "points": sdesc["points"],
-                                   "usable_width": sdesc.get("usable_width"), "input": kind}, rdesc, g, roll, q,
-                             symmetric_z=False)
+                q += _inside(sdesc.get("roll_queries"), xs, cp)
+                gdesc = {"cls": "SplineGroove", "kwargs": {}, "points": sdesc["points"],
+                         "usable_width": sdesc.get("usable_width"), "input": kind}
+                grid = _oracle_roll(ctx, gdesc, rdesc, g, roll, q, symmetric_z=False)
+            if grid is not None and (rdesc.get("ops") is not None or ctx.rng.random() < 0.7):
+                _roll_life(ctx, gdesc, rdesc, g, roll, batch, False, symmetric_z=False,
+                           extra_queries=sdesc.get("roll_queries"))
             ctx.count("roll-on-spline")
             ctx.count("roll-radius:" + rdesc.get("radius_mode", "nominal_radius"))
     # the caller goes on using ITS container (rescales it, builds the next member of a family from it, ...): every groove
@@ -1192,6 +1520,120 @@ def _spline_case(ctx, sdesc, batch, with_model):
                            member, None, _fixed_queries(given))
 
 
+def _inside(queries, xs, cp):
+    """the query points of a replay that lie inside the grid the roll has at this point of its life"""
+    if not queries or getattr(xs, "ndim", 0) != 1 or not len(xs):
+        return []
+    return [(float(x), float(z)) for (x, z) in queries
+            if float(xs[0]) <= x <= float(xs[-1]) and float(cp[0, 0]) <= z <= float(cp[-1, 0])]
+
+
+# ------------------------------------------------------------------------------------------------------------------
+# the roll of a roll pass: looked at before the pass is solved, after it was solved, after it was solved AGAIN
+# ------------------------------------------------------------------------------------------------------------------
+PASS_GROOVES = {
+    "CircularOvalGroove": dict(depth=8e-3, r1=6e-3, r2=40e-3),
+    "RoundGroove": dict(r1=1e-3, r2=12.5e-3, depth=11.5e-3),
+    "BoxGroove": dict(r1=2e-3, r2=4e-3, depth=10e-3, usable_width=30e-3, ground_width=24e-3),
+    "DiamondGroove": dict(r1=3e-3, r2=5e-3, usable_width=38e-3, tip_depth=12e-3),
+    "SquareGroove": dict(r1=3e-3, r2=4e-3, usable_width=30e-3, tip_depth=15e-3),
+    "SwedishOvalGroove": dict(r1=3e-3, r2=6e-3, depth=7e-3, usable_width=36e-3, ground_width=20e-3),
+}
+PASS_JITTER = {"CircularOvalGroove": "r2", "RoundGroove": "r2", "BoxGroove": "depth", "DiamondGroove": "usable_width",
+               "SquareGroove": "usable_width", "SwedishOvalGroove": "depth"}
+# the smaller of height and width of common.make_in_profile's shapes per unit `size` (the pass may turn the profile by 90 deg)
+PROFILE_HEIGHT_PER_SIZE = {"round": 1.0, "square": 1.0, "box": 0.8, "diamond": 0.8}
+CORPUS_PASSES = [
+    {"groove": {"cls": "CircularOvalGroove", "kwargs": dict(depth=8e-3, r1=6e-3, r2=40e-3)}, "nominal_radius": 160e-3,
+     "gap": 2e-3, "nx": None, "look_before_solve": False,
+     "profiles": [{"kind": "round", "size": 24e-3}, {"kind": "round", "size": 34e-3}]},
+    {"groove": {"cls": "RoundGroove", "kwargs": dict(r1=1e-3, r2=12.5e-3, depth=11.5e-3)}, "nominal_radius": 160e-3,
+     "gap": 2e-3, "nx": 9, "look_before_solve": True,
+     "profiles": [{"kind": "square", "size": 30e-3}, {"kind": "round", "size": 26e-3}, {"kind": "round", "size": 31e-3}]},
+]
+
+
+def _random_pass_desc(rng):
+    cls = rng.choice(sorted(PASS_GROOVES))
+    kw = dict(PASS_GROOVES[cls])
+    kw[PASS_JITTER[cls]] *= rng.uniform(0.98, 1.02) if cls == "SquareGroove" else rng.uniform(0.9, 1.1)   # a square stays one
+    gap = 2e-3 * rng.uniform(0.5, 1.5)
+    # incoming profiles higher than the pass (2 x groove depth + gap), so that the rolls touch them: 2..3 different ones
+    pass_height = 2 * (kw.get("depth") or kw.get("tip_depth")) + gap
+    heights = [pass_height * rng.uniform(1.08, 1.6)]
+    for _ in range(rng.randrange(1, 3)):
+        heights.append(max(heights[-1] * rng.choice([rng.uniform(0.8, 0.96), rng.uniform(1.04, 1.25)]), 1.05 * pass_height))
+    profiles = []
+    for h in heights:
+        kind = rng.choice(["round", "square", "box", "diamond"])
+        profiles.append({"kind": kind, "size": h / PROFILE_HEIGHT_PER_SIZE[kind]})
+    return {"groove": {"cls": cls, "kwargs": kw}, "nominal_radius": 160e-3 * rng.uniform(0.7, 1.5), "gap": gap,
+            "nx": rng.choice([None, rng.randrange(2, 25)]), "look_before_solve": rng.random() < 0.4, "profiles": profiles}
+
+
+def _pass_roll_case(ctx, pdesc, batch, with_model, extra_queries=None):
+    """In ordinary use the data of a roll change without the user touching it: the pass computes the contact length anew in
+    every solution iteration and for every incoming profile.  The roll of the pass is looked at (everything `_oracle_roll`
+    demands) before the first solution if the description says so, and after every solution.  A solution that fails is not
+    C10's business (counted, case dropped)."""
+    import numpy as np
+    from pyroll.core import Roll, RollPass
+    from . import common
+    try:
+        g = _build_groove(dict(pdesc["groove"], N=None))
+    except Exception as ex:
+        if not _in_pyroll(ex):
+            raise
+        ctx.count("groove-rejected:" + type(ex).__name__)
+        return
+    gdesc = dict(pdesc["groove"], pad_mode="0")
+    cp = np.asarray(g.contour_points, dtype=float)
+    unit = RollPass(label="C10", roll=Roll(groove=g, nominal_radius=pdesc["nominal_radius"], rotational_frequency=1),
+                    gap=pdesc["gap"])
+    roll = unit.roll
+    nx = pdesc.get("nx")
+
+    def look(stage, step):
+        if roll.has_set_or_cached("contact_length"):
+            # the pass must have given its roll a contact arc that exists: 0 < 1.1 x contact length <= radius at the groove
+            # bottom (an incoming profile lower than the pass gives none - not a roll surface to judge)
+            cl, rmin = float(roll.contact_length), pdesc["nominal_radius"] - float(cp[:, 1].max())
+            if not (math.isfinite(cl) and 0 < 1.1 * cl <= rmin):
+                ctx.count("pass-roll:no-contact-arc")
+                return
+        now = {"nominal_radius": pdesc["nominal_radius"], "radius_mode": "nominal_radius", "nx": nx,
+               "mode": "set" if roll.has_set_or_cached("contact_length") else "default"}
+        rp = {"pass": pdesc, "step": step}
+        with _ConfigOverride(ROLL_SURFACE_DISCRETIZATION_COUNT=nx):
+            xs = np.asarray(_read_or_none(lambda: roll.surface_x), dtype=float)
+            queries = (_grid_queries(ctx.rng, xs, cp[:, 0], 10) if xs.ndim == 1 and len(xs) else []) + \
+                _inside(extra_queries, xs, cp)
+            # no second evaluation here: re-evaluating the roll alone, outside a solution iteration, is not how its values are
+            # refreshed, and the grid of a roll looked at before the first solution lags one iteration behind the contact length
+            grid = _oracle_roll(ctx, gdesc, now, g, roll, queries, rp=rp, stage=stage, second_evaluation=False)
+        if with_model and grid is not None and nx is not None:
+            _batch_roll(batch, gdesc, now, g, roll, grid, queries, ctx.rng, rp=rp, explicit_x=True)
+
+    ctx.case(["pass-roll", pdesc["groove"]["cls"], round(pdesc["nominal_radius"], 9), round(pdesc["gap"], 9), nx,
+              pdesc["look_before_solve"], [[p["kind"], round(p["size"], 9)] for p in pdesc["profiles"]]], nontrivial=True)
+    ctx.count("pass-roll:" + pdesc["groove"]["cls"])
+    if pdesc.get("look_before_solve"):
+        ctx.count("pass-roll:looked-at-before-solve")
+        look(":pass:before-solve", 0)
+    for n_solve, p in enumerate(pdesc["profiles"], 1):
+        try:
+            with _ConfigOverride(ROLL_SURFACE_DISCRETIZATION_COUNT=nx), warnings.catch_warnings():
+                warnings.simplefilter("ignore")
+                unit.solve(common.make_in_profile(ctx.rng, p["kind"], size=p["size"]))
+        except Exception as ex:
+            if not _in_pyroll(ex):
+                raise
+            ctx.count("pass-roll:solve-raised:" + type(ex).__name__)
+            return
+        ctx.count("pass-roll:solutions")
+        look(f":pass:solve-{min(n_solve, 3)}", n_solve)
+
+
 def _read_or_none(fn):
     """a representation the oracle reports on later (`_oracle_roll` reads it again under its own guard)"""
     try:
@@ -1215,6 +1657,13 @@ def run(ctx):
         _spline_case(ctx, dict(s, mode="corpus"), batch, with_model)
     for s in CORPUS_SEQUENCES:
         _spline_case(ctx, dict(s, mode="corpus"), batch, with_model)
+    for d in CORPUS_ROLL_LIVES:
+        gd = dict(d["groove"])
+        _groove_case(ctx, gd, batch, with_model, 1, rolls=[dict(d["roll"], ops=[list(o) for o in d["roll"]["ops"]])])
+    for d in CORPUS_PASSES:
+        _pass_roll_case(ctx, d, batch, with_model)
+    for i in range(ctx.budget(40, 1200)):
+        _pass_roll_case(ctx, _random_pass_desc(rng), batch, with_model and i < ctx.budget(15, 150))
     n_g = ctx.budget(220, 6000)
     for i in range(n_g):
         desc = _random_groove_desc(rng)
@@ -1232,6 +1681,7 @@ def run(ctx):
             sdesc["reuse"] = _random_reuse(rng, sdesc["scale"])
         _spline_case(ctx, sdesc, batch, with_model and i < ctx.budget(80, 800))
     if with_model:
+        _batch_rollobj(ctx, batch, ctx.budget(40, 400), ctx.c10_info)
         _face_test_cases(ctx, batch, ctx.budget(60, 600))
         _batch_formulas(ctx, batch, ctx.c10_info)
         _run_batch(ctx, batch)
@@ -1245,8 +1695,13 @@ def replay(ctx, data):
     batch = _Batch()
     with_model = bool(getattr(ctx, "model_available", False)) and getattr(ctx, "c10_info", None) is not None
     ctx.rng = random.Random(0)
-    rq = [(r["x"], r["z"])] if "x" in r and "z" in r else ([(0.0, r["z"])] if "z" in r and "roll" in r else None)
-    if "spline" in r:
+    rq = [(r["x"], r["z"])] if "x" in r and "z" in r else ([(0.0, r["z"])] if "z" in r and ("roll" in r or "pass" in r)
+                                                           else None)
+    if "pass" in r:
+        _pass_roll_case(ctx, r["pass"], batch, with_model, extra_queries=rq)
+    elif "roll_object_life" in r:
+        ctx.c10_replayed_roll_object_life = True     # K only: re-run by the ordinary stream (needs the model)
+    elif "spline" in r:
         s = r["spline"]
         _spline_case(ctx, dict(points=s.get("first_points") or s.get("original") or s["points"],
                                refined=(s["points"] if s.get("is_refined") else None) or s.get("refined") or r.get("refined"),
